@@ -47,9 +47,13 @@ def load(code):
     return ns
 
 
+REPO = os.environ.get("J2M_TRIAGE_REPO", "/repo")   # point at a scratch copy to triage a candidate fix
+
+
 def cli(*args):
+    env = dict(os.environ, PYTHONPATH=REPO)
     return subprocess.run([sys.executable, "-m", "json_to_models", *args],
-                          capture_output=True, text=True, cwd="/repo")
+                          capture_output=True, text=True, cwd=REPO, env=env)
 
 
 def with_json(data_text, fn):
